@@ -574,8 +574,15 @@ def _sorted_zip_of_param(it: ast.Call, fn: ast.FunctionDef) -> bool:
 
 
 def _in_loop(fn: ast.FunctionDef, stmt: ast.stmt) -> bool:
-    """stmt sits in the body of a loop of fn (the sweep over candidate spacings)"""
-    return any(isinstance(l, (ast.For, ast.While)) and any(stmt is x for b in l.body for x in ast.walk(b)) for l in ast.walk(fn))
+    """stmt sits in the body of THE SWEEP: a for loop over a list that a while loop of fn fills by append (the candidate spacings) -
+    the only loop whose first candidate sweep_start_is_feasible_end speaks about"""
+    filled = set()
+    for w in ast.walk(fn):
+        if isinstance(w, ast.While):
+            for c in ast.walk(w):
+                if isinstance(c, ast.Call) and isinstance(c.func, ast.Attribute) and c.func.attr == "append" and isinstance(c.func.value, ast.Name):
+                    filled.add(c.func.value.id)
+    return any(isinstance(l, ast.For) and isinstance(l.iter, ast.Name) and l.iter.id in filled and any(stmt is x for b in l.body for x in ast.walk(b)) for l in ast.walk(fn))
 
 
 ROWWISE_ACCEPT = {
